@@ -25,6 +25,8 @@ struct CaseSpec {
   double futexDelay = 0, futexSpur = 0;
   bool checkAccounting = false; // C08 quiescence check before the pool is destroyed
   int finalResize = -1; // main resizes to this after everything was joined (-1: no)
+  bool hintRace = false; // delay (almost) every worker between a failed central-queue dequeue and its clearing of the non-empty hint
+  bool joinPoolTasks = false; // main polls until the pool-task programs have finished before it goes on to ~ThreadPool
   J json() const;
 };
 
